@@ -847,3 +847,74 @@ class LamGen:
                 self.emit('def top%d(): pass' % self.n)
                 done += 1
         return '\n'.join(self.lines) + '\n'
+
+
+# --------------------------------------------------------------------------- modules that are not plain files
+
+class LoaderGen:
+    """A decorator module D (functools.wraps decorators in assorted layouts, plain decorators as controls, a function
+    of its own) and a user module U whose functions are decorated with D's decorators.  The harness imports each of
+    them from disk, from a zip archive (zipimport) or through a custom loader that only offers `get_source`."""
+
+    def __init__(self, rng):
+        self.rng = rng
+
+    def unit(self):
+        return self.rng.choice(['    ', '    ', '  ', '\t', '   '])
+
+    def dmod(self):
+        r = self.rng
+        L = ['# decorator module', 'import functools', 'LOG = []', '']
+        u = self.unit()
+        L += ['def plain(f):', u + 'return f', '']
+        # wrapping: wrapper nested once
+        u, v = self.unit(), None
+        v = u + (self.unit() if '\t' not in u else '\t')
+        L += ['def wrapping(f):']
+        if r.random() < 0.5:
+            L += [u + '# the wrapper below replaces f', '']
+        L += [u + '@functools.wraps(f)']
+        sig = r.choice(['def wrapper(*a, **k):', 'def wrapper(*a,\n' + v + v + '**k):  # two lines',
+                        'def wrapper(*a, **k):  # c'])
+        L += [u + x for x in sig.split('\n')[:1]] + sig.split('\n')[1:]
+        if r.random() < 0.5:
+            L += [v + '"""wrapper doc', 'under-indented line"""']
+        if r.random() < 0.5:
+            L += [v + 'LOG.append(("call",', v + v + 'len(a)))']
+        if r.random() < 0.4:
+            L += [v + 'x = 1 + \\', v + v + '2']
+        L += [v + 'return f(*a, **k)', u + 'return wrapper', '']
+        # factory: wrapper nested twice
+        u = self.unit(); v = u + u; w = v + u
+        L += ['def wrapping_args(n, tag="t"):', u + 'def deco(f):', v + '@functools.wraps(f)',
+              v + 'def wrapper(*a, **k):']
+        if r.random() < 0.5:
+            L += [w + '# %s' % r.choice(['note', 'x = 1', "it's"])]
+        L += [w + 'r = f(*a, **k)', w + 'return r', v + 'return wrapper', u + 'return deco', '']
+        # static method of a class
+        u = self.unit(); v = u + u; w = v + u
+        L += ['class Deco:', u + '@staticmethod', u + 'def wrap(f):', v + '@functools.wraps(f)',
+              v + 'def inner(*a, **k): return f(*a, **k)' if r.random() < 0.5 else v + 'def inner(*a, **k):\n' + w + 'return f(*a, **k)',
+              v + 'return inner', '']
+        L += ['def own(x, y=2):', self.unit() + 'return (x,', 'y)', '']
+        return '\n'.join(L)
+
+    def umod(self, dname):
+        r = self.rng
+        L = ['# user module', 'import %s as D' % dname, 'REG = []', '']
+        names = ['area', 'volume', 'ratio', 'scale', 'norm', 'clip']
+        r.shuffle(names)
+        decos = ['@D.wrapping', '@D.wrapping_args(2)', '@D.wrapping_args(1,\n tag="x")', '@D.Deco.wrap', '@D.plain', None,
+                 '@D.wrapping\n@D.plain', '@D.plain\n@D.wrapping']
+        for nm in names:
+            d = r.choice(decos)
+            u = self.unit()
+            if d:
+                L += d.split('\n')
+            L += ['def %s(w, h=2):' % nm]
+            if r.random() < 0.4:
+                L += [u + '"""%s of a thing' % nm, 'second line"""']
+            L += [u + 'return %s' % r.choice(['w * h', 'w + h', '(w,\n' + 'h)', 'w / h'])]
+            L += ['REG.append(%s)' % nm, '']
+        L += ['REG.append(D.own)', 'REG.append(D.wrapping)', 'REG.append(D.plain)', '']
+        return '\n'.join(L)
